@@ -80,7 +80,20 @@ _as.symbolic_attractor_test = _rec_sat
 _BLOCK = {"main": None, "flags": []}
 _orig_nac = _sdm.SuccessionDiagram.node_attractor_candidates
 _orig_nas = _sdm.SuccessionDiagram.node_attractor_seeds
+_SCC = {"main": None, "flags": []}
 def _rec_nac(self, node_id, compute=False, *a, **kw):
+    if _SCC["main"] is not None and id(self) != _SCC["main"] and not _SCC.get("inner"):
+        # expand_scc: candidate queries on sub-diagrams made by attach_scc_subdiagram (cached answers included)
+        _SCC["inner"] = True
+        try:
+            r = _orig_nac(self, node_id, compute, *a, **kw)
+            _SCC["flags"].append("1" if len(r) == 0 else "0")
+            return r
+        except RuntimeError:
+            _SCC["flags"].append("r")
+            raise
+        finally:
+            _SCC["inner"] = False
     if _BLOCK["main"] is not None and id(self) != _BLOCK["main"]:
         try:
             r = _orig_nac(self, node_id, compute, *a, **kw)
@@ -202,7 +215,12 @@ def apply_real(sd, op, nm):
                 _BLOCK["main"] = None
                 tape = "".join("1" if f else "0" for f in _BLOCK["flags"]) or "-"
         elif k == "scc":
-            r = str(sd.expand_scc(find_motif_avoidant_attractors=op[1])).lower()
+            _SCC["main"] = id(sd); _SCC["flags"] = []
+            try:
+                r = str(sd.expand_scc(find_motif_avoidant_attractors=op[1])).lower()
+            finally:
+                _SCC["main"] = None
+                tape = "".join(_SCC["flags"]) or "-"
         elif k == "aseeds":
             sp = dict(sd.node_data(0)["space"])
             _NFVS["on"] = True; _NFVS["log"] = []
@@ -255,6 +273,8 @@ def model_cmd(op, tape):
         return f"op skiprem {tape or '-'}"
     if k == "aseeds":
         return f"aseeds {opt(op[1])} {tape[0] if tape else '-'} {tape[1] if tape else '-'}"
+    if k == "scc":
+        return f"scc {int(op[1])} {tape or '-'}"
     if k == "block":
         return f"block {int(op[1])} {int(op[3])} {opt(op[2])} {tape or '-'}"
     if k == "cands":
